@@ -15,6 +15,8 @@ import json
 import pathlib
 import sys
 
+sys.path.insert(0, str(pathlib.Path(__file__).resolve().parent))
+
 ROOT = pathlib.Path(__file__).resolve().parent.parent
 BASE = ROOT / "tools" / "fingerprints.json"
 
@@ -40,6 +42,12 @@ def fingerprints(repo):
         except (SyntaxError, UnicodeDecodeError, OSError) as ex:
             out[rel + "::<unparsable>"] = hashlib.sha1(repr(ex).encode()).hexdigest()[:16]
             continue
+        try:  # renames of local variables are not drift (tools/alpha.py)
+            import alpha
+
+            alpha.normalise(tree, rel)
+        except ImportError:
+            pass
         for n in ast.walk(tree):
             _strip_doc(n)
 
@@ -78,6 +86,9 @@ if __name__ == "__main__":
                                                "(tools/fingerprint.py --write); drift only widens the search",
                                     "functions": fp}, indent=0, sort_keys=True))
         print("%d fingerprints written" % len(fp))
+        import alpha
+
+        print("%d baseline functions written" % alpha.write(repo))
     else:
         d = drift(repo)
         print("no baseline" if d is None else ("no drift" if not d else "\n".join(d)))
